@@ -270,21 +270,29 @@ def render_free(prog, ch, opts=None):
         ex = Expect(exp_tokens, label, s.name, first_line, last_line, s)
         if join:
             lay.features.add("join")
-            nxt = stmts[i + 1]
-            sep = ch.pick(["; ", ";", " ; "], "joinsep")
-            ntoks = apply_case(stmt_toks(nxt), case_mode)
-            ntext = "".join(t.pre + t.text for t in ntoks)
-            cur = cur + sep + ntext
-            lay.lines.append(cur)
             lay.expect.append(ex)
-            ntk = [(t.kind, t.text) for t in stmt_toks(nxt) if t.kind not in ("label", "cname")]
-            if nxt.name:
-                ntk = ntk[1:]
-            # both parts of a ';'-joined logical line carry that line's span
-            lay.expect.append(Expect(ntk, None, nxt.name, first_line, last_line, nxt))
+            sep = ch.pick(["; ", ";", " ; "], "joinsep")
+            j = i + 1
+            while True:
+                nxt = stmts[j]
+                ntoks = apply_case(stmt_toks(nxt), case_mode)
+                ntext = "".join(t.pre + t.text for t in ntoks)
+                cur = cur + sep + ntext
+                ntk = [(t.kind, t.text) for t in stmt_toks(nxt) if t.kind not in ("label", "cname")]
+                if nxt.name:
+                    ntk = ntk[1:]
+                # every part of a ';'-joined logical line carries that line's span
+                lay.expect.append(Expect(ntk, None, nxt.name, first_line, last_line, nxt))
+                j += 1
+                # a chain of more than two statements on one line
+                if j < n and not stmts[j].label and (only is None or j in only) and ch.flag("join-more"):
+                    lay.features.add("join-chain")
+                    continue
+                break
+            lay.lines.append(cur)
             for ctext, cl in inner_comments:
                 lay.comments.append((ctext, cl, len(lay.expect) - 1))
-            i += 2
+            i = j
             continue
         if tc is not None:
             cur = cur + " " + tc
@@ -309,7 +317,7 @@ def canonical_text(prog):
 # ===================================================================== fixed
 
 CONT_MARKS = ["&", "1", "+", "x", "$", "9", "!", "*", "c", "."]
-FIX_COMMENTS = ["C comment", "c", "* star ' \"", "! bang & more", "C     x = 1"]
+FIX_COMMENTS = ["C comment", "c", "* star ' \"", "! bang & more", "C     x = 1", "Cglued text", "cset up", "CCCCCC", "Call setup(n)", "*****", "c-----"]
 
 
 def _fits(prefix, pieces):
@@ -472,4 +480,5 @@ def focus_programs():
         out.append((name, wrap([S(t, "focus")]), {1}))
     out.append(("label-name-do", wrap([opener("do i = 1, n", "do", label="10", name="nm"), S("a = 'x!'", "assign"), closer("end do nm", "end_do")]), {1, 2}))
     out.append(("two-stmts", wrap([S("a = 'p!q'", "assign"), S("b = \"r's\" // 't'", "assign")]), {1, 2}))
+    out.append(("named-if-chain", wrap([S("a = 1", "assign"), opener("if (a > 0) then", "if_then", name="chk"), S("b = 2", "assign"), closer("end if chk", "end_if"), S("c = 3", "assign")]), {1, 2, 3, 4, 5}))
     return out
